@@ -12,7 +12,11 @@ CLAIMS = {
         text="Proof (Lean 4 kernel) that for EVERY line evaluator the model of execute/execute_session returns status true and exactly "
              "count(LF)+1 slots, slot i being line i evaluated in the variables left by lines <i (splitLines_length, splitLines_no_lf, "
              "splitLines_join, execute_total, slot_spec). The model is tied to src/session.rs + execute_session by comparing slot counts "
-             "on every generated text. Panic freedom and termination of the Rust code are NOT theorems: they are decided by hostile "
+             "on every generated text. Termination of the two unbounded rewrite loops is a theorem on the model for EVERY input and every rule "
+             "set whose patterns have >= 2 tokens: a completed find_match covers >= pattern-length live tokens (findMatch_count), replacing them by "
+             "one lowers the measure (replaceRange_mu), a firing pass strictly decreases it and a non-firing pass is the identity (rulePass_mu, "
+             "unitPass_mu), so beyond `live tokens` passes more fuel changes nothing (ruleLoop_stable, unitLoop_stable, model_fuel_suffices); the "
+             "hypothesis is re-decided for the regenerated tables (gen_rules_ok, gen_units_ok). Panic freedom and termination of the Rust code are NOT theorems: they are decided by hostile "
              "generators (byte-level, corrupted well-formed lines, curated panic shapes, all language tags, all setters) under "
              "catch_unwind with panic-site attribution and a 5 s watchdog. 14 panic sites found this way were repaired in /repo (fix: commits).",
         note="Trusted: Lean kernel; axioms propext/Classical.choice/Quot.sound only; harness; generators bound line length (<=400) and line count (<=40).",
